@@ -465,6 +465,9 @@ class Resolver:
                 if name == "sub" and base == "pattern":
                     return prim("strlike")
                 if name == "get" and base in ("dict",):
+                    if len(e.args) >= 2 and not (isinstance(e.args[1], ast.Constant) and e.args[1].value is None):
+                        d = self.type_of(e.args[1], fi, env)
+                        return at[3][2] if at[3][2] != UNK else d
                     return ("opt", at[3][2])
                 if name == "get" and base == "dictlit":
                     return ("dictget", at[3])
